@@ -175,7 +175,10 @@ type checker struct {
 }
 
 func (c *checker) class(src, tgt, cl string) {
-	key := src + "/" + tgt + "/" + cl
+	key := src + "/" + tgt
+	if cl != "" {
+		key += "/" + cl
+	}
 	if _, ok := c.classes.Load(key); !ok {
 		c.classes.Store(key, struct{}{})
 	}
@@ -243,19 +246,39 @@ func checkBatch[S safecast.IConvertable](c *checker, s *source[S], vals []S, sor
 	var prevU [5]uint64
 	var prevV val
 	havePrev := false
+	// counters and outcome classes are collected locally and flushed once per batch (a shared atomic per call
+	// serialises the 16 workers and dominates the exhaustive 32-bit sweeps)
+	var calls, bigCalls int64
+	var seenS, seenU [5]map[string]struct{}
+	for i := range seenS {
+		seenS[i], seenU[i] = map[string]struct{}{}, map[string]struct{}{}
+	}
+	lastS, lastU := [5]string{}, [5]string{}
+	defer func() {
+		c.calls.Add(calls)
+		c.bigCalls.Add(bigCalls)
+		for t := 0; t < 5; t++ {
+			for k := range seenS[t] {
+				c.class(s.name, sName[t], k)
+			}
+			for k := range seenU[t] {
+				c.class(s.name, uName[t], k)
+			}
+		}
+	}()
 	for _, x := range vals {
 		v := s.toVal(x)
 		nan := v.isNaN()
 		for t := 0; t < 5; t++ {
 			got := s.signed[t](x)
-			c.calls.Add(1)
+			calls++
 			if nan {
 				continue
 			}
 			want := refSigned(v, sMin[t], sMax[t])
 			if useBig {
 				b := bigRef(v, big.NewInt(sMin[t]), big.NewInt(sMax[t]))
-				c.bigCalls.Add(1)
+				bigCalls++
 				if !b.IsInt64() || b.Int64() != want {
 					c.r.Fatalf("reference self-check failed: %s %v: fast=%d big=%v", sName[t], v, want, b)
 				}
@@ -264,7 +287,10 @@ func checkBatch[S safecast.IConvertable](c *checker, s *source[S], vals []S, sor
 				report(c, s.name, s.named, sName[t], v, fmt.Sprint(got), fmt.Sprint(want))
 			}
 			inRange := inSigned(v, sMin[t], sMax[t])
-			c.class(s.name, sName[t], classify(v, inRange, want == sMin[t], want == sMax[t]))
+			if cl := classify(v, inRange, want == sMin[t], want == sMax[t]); cl != lastS[t] {
+				lastS[t] = cl
+				seenS[t][cl] = struct{}{}
+			}
 			if sorted && havePrev && got < prevS[t] {
 				c.r.Violation(vrun.Sig{"effect": "non-monotonic", "source": s.name, "target": sName[t]},
 					fmt.Sprintf("%s(%s %v)=%d > %s(%v)=%d", sName[t], s.name, prevV, prevS[t], sName[t], v, got),
@@ -274,14 +300,14 @@ func checkBatch[S safecast.IConvertable](c *checker, s *source[S], vals []S, sor
 		}
 		for t := 0; t < 5; t++ {
 			got := s.unsig[t](x)
-			c.calls.Add(1)
+			calls++
 			if nan {
 				continue
 			}
 			want := refUnsigned(v, uMax[t])
 			if useBig {
 				b := bigRef(v, big.NewInt(0), new(big.Int).SetUint64(uMax[t]))
-				c.bigCalls.Add(1)
+				bigCalls++
 				if !b.IsUint64() || b.Uint64() != want {
 					c.r.Fatalf("reference self-check failed: %s %v: fast=%d big=%v", uName[t], v, want, b)
 				}
@@ -290,7 +316,10 @@ func checkBatch[S safecast.IConvertable](c *checker, s *source[S], vals []S, sor
 				report(c, s.name, s.named, uName[t], v, fmt.Sprint(got), fmt.Sprint(want))
 			}
 			inRange := inUnsigned(v, uMax[t])
-			c.class(s.name, uName[t], classify(v, inRange, want == 0, want == uMax[t]))
+			if cl := classify(v, inRange, want == 0, want == uMax[t]); cl != lastU[t] {
+				lastU[t] = cl
+				seenU[t][cl] = struct{}{}
+			}
 			if sorted && havePrev && got < prevU[t] {
 				c.r.Violation(vrun.Sig{"effect": "non-monotonic", "source": s.name, "target": uName[t]},
 					fmt.Sprintf("%s(%s %v)=%d > %s(%v)=%d", uName[t], s.name, prevV, prevU[t], uName[t], v, got),
